@@ -138,7 +138,9 @@ template <typename T, int N, int M>
 struct is_zero_impl< Eigen::Matrix<T, N, M> >
 {
     static bool get(const Eigen::Matrix<T, N, M> &x) {
-        return x.isZero();
+        // Exact test, as for scalars and static_matrix
+        // (Eigen's isZero() uses an absolute tolerance).
+        return (x.array() == T(0)).all();
     }
 };
 
